@@ -468,6 +468,12 @@ func RunProperty(id, tier string, seed uint64, replayPath string) int {
 
 	floor := p.Floor(tier)
 	dn := len(agg.Nontrivial)
+	for _, n := range agg.Notes {
+		if strings.HasPrefix(n, "HARNESS-PANIC") && exit == 0 {
+			fmt.Printf("INCONCLUSIVE property=%s the harness itself panicked in a worker: %s\n", id, n)
+			exit = 3
+		}
+	}
 	if replayPath == "" && exit == 0 && dn < floor {
 		fmt.Printf("INCONCLUSIVE property=%s observed too little: distinct_nontrivial=%d < floor=%d (evaluations=%d, inconclusive=%d, dead children=%d)\n", id, dn, floor, agg.Evals, agg.Inconclusive, agg.CasesDead)
 		exit = 3
@@ -626,7 +632,15 @@ func runChild(p Property, c Case, exe, tmpRoot, tier string) (*CaseResult, bool)
 			res.Violations = append(res.Violations, cc.ClassifyCrash(c, stderrText, exitStr)...)
 		} else {
 			sig, detail := ClassifyDeath(stderrText, exitStr)
-			res.Violate("crash", sig, detail, nil)
+			if strings.Contains(sig, "|at=semaverif/") && strings.Contains(sig, "|inner=|") {
+				// the faulting goroutine has no semadb frame at all: a bug of the
+				// harness itself, never a verdict about the repository
+				res.Inconclusive++
+				res.Note("HARNESS-PANIC in case %d (%s): %s", c.Idx, c.Name, sig)
+				fmt.Printf("HARNESS-PANIC property=%s case=%d %s\n%s\n", c.Prop, c.Idx, sig, firstLines(detail, 25))
+			} else {
+				res.Violate("crash", sig, detail, nil)
+			}
 		}
 	}
 	// race reports
@@ -635,6 +649,14 @@ func runChild(p Property, c Case, exe, tmpRoot, tier string) (*CaseResult, bool)
 		res.Stats["race_reports"]++
 	}
 	return res, dead
+}
+
+func firstLines(s string, n int) string {
+	lines := strings.Split(s, "\n")
+	if len(lines) > n {
+		lines = lines[:n]
+	}
+	return strings.Join(lines, "\n")
 }
 
 func readTail(path string, max int64) string {
